@@ -29,8 +29,8 @@ func ctlJobs(tier string) []Job {
 						}
 						continue
 					}
-					if c != "close" && capa == 4 {
-						continue // quick: capacity 4 only for the plain Close program
+					if c != "close" && (capa == 4 || capa == 1 && cons != "none" || cons == "both-stop2") {
+						continue // quick: the full capacity x consumer product only for the plain Close program
 					}
 					if cons == "none" || (small && capa == -1) {
 						add(h, c, cons, capa, 2)
